@@ -259,3 +259,55 @@ func SortedKeys[V any](m map[string]V) []string {
 	sort.Strings(out)
 	return out
 }
+
+// NewWorldCustom builds a world with explicit participant names and machine mnemonics; the
+// nodes' communication keys are derived from keyPrefix+name (fresh keys for a reinitialisation).
+func NewWorldCustom(names, mnemonics []string, keyPrefix string) (*World, error) {
+	w := &World{N: len(names), Board: NewBoard()}
+	for i, name := range names {
+		nd, err := NewNodeOver(name, DetKeyPair(keyPrefix+name), NewMemState(Topic), w.Board.NewHandle())
+		if err != nil {
+			return nil, err
+		}
+		a, err := NewAirWithMnemonic(name, mnemonics[i])
+		if err != nil {
+			return nil, err
+		}
+		w.Nodes = append(w.Nodes, nd)
+		w.Airs = append(w.Airs, a)
+		w.Names = append(w.Names, name)
+	}
+	return w, nil
+}
+
+// OperateAllReverse answers pending operations in reverse node order (another delivery order).
+func (w *World) OperateAllReverse() (int, error) {
+	cnt := 0
+	for i := len(w.Nodes) - 1; i >= 0; i-- {
+		ops := w.Nodes[i].PendingOps()
+		for j := len(ops) - 1; j >= 0; j-- {
+			if err := w.Operate(i, ops[j].ID); err != nil {
+				return cnt, fmt.Errorf("node %d op %s (%s): %w", i, ops[j].ID, ops[j].Type, err)
+			}
+			cnt++
+		}
+	}
+	return cnt, nil
+}
+
+// RunToQuiescenceReverse is RunToQuiescence with the reverse answer order.
+func (w *World) RunToQuiescenceReverse() error {
+	for iter := 0; iter < 100; iter++ {
+		if err := w.DrainAll(); err != nil {
+			return err
+		}
+		c, err := w.OperateAllReverse()
+		if err != nil {
+			return err
+		}
+		if c == 0 && w.allDrained() {
+			return nil
+		}
+	}
+	return fmt.Errorf("no quiescence after 100 rounds")
+}
